@@ -43,7 +43,8 @@ Theorem step_nth_row : forall ip0 s l a i t,
   let e := nth (Z.to_nat i) (tabs t) (VNil, VNil) in
   exists k,
     STEP ip0 s = SNext (ip0 + 1)
-                   (set_stack (set_heap s (st_heap s ++ row_cells (length (st_heap s)) (fst e) (snd e))) k) /    stack_is (cap s) k (l ++ [VObj (N.of_nat (length (st_heap s)))]).
+                   (set_stack (set_heap s (st_heap s ++ row_cells (length (st_heap s)) (fst e) (snd e))) k) /\
+    stack_is (cap s) k (l ++ [VObj (N.of_nat (length (st_heap s)))]).
 Proof.
   intros ip0 s l a i t Hop Hok Hst Hi Ha W e. step_opc Hop. unfold i_39. cbv zeta.
   pose proof (stack_is_self _ Hok) as K0. rewrite Hst in K0.
@@ -54,18 +55,19 @@ Proof.
   set (h := st_heap s) in *.
   assert (Hrow : (if (i <? Z.of_nat (length (tkeys t)))%Z
                   then tget (veq h) t (if (i <? Z.of_nat (length (tkeys t)))%Z then tnth_key t (Z.to_nat i) else VNil)
-                  else Some None) = Some (if (i <? Z.of_nat (length (tkeys t)))%Z then Some (snd e) else None) /                 (if (i <? Z.of_nat (length (tkeys t)))%Z then tnth_key t (Z.to_nat i) else VNil) = fst e /                 (match (if (i <? Z.of_nat (length (tkeys t)))%Z then Some (snd e) else None) with
+                  else Some None) = Some (if (i <? Z.of_nat (length (tkeys t)))%Z then Some (snd e) else None) /\
+                 (if (i <? Z.of_nat (length (tkeys t)))%Z then tnth_key t (Z.to_nat i) else VNil) = fst e /\
+                 (match (if (i <? Z.of_nat (length (tkeys t)))%Z then Some (snd e) else None) with
                   | Some v => v | None => VNil end) = snd e).
   { rewrite (tlen_spec W). destruct (i <? Z.of_nat (length (tabs t)))%Z eqn:E.
     - apply Z.ltb_lt in E. assert (L : Z.to_nat i < length (tabs t)) by lia.
-      destruct (vm_row _ _ _ W L) as (R1 & R2). fold e in R1, R2. rewrite R1, R2. auto.
+      destruct (vm_row F _ _ _ W L) as (R1 & R2). fold e in R1, R2. rewrite R1, R2. auto.
     - apply Z.ltb_ge in E. assert (L : length (tabs t) <= Z.to_nat i) by lia.
       unfold e. rewrite (nth_overflow _ _ L). auto. }
   destruct Hrow as (R1 & R2 & R3). rewrite R1, R2, R3. clear R1 R2 R3.
   unfold salloc, halloc. cbn [st_heap set_heap set_stack spop_n].
   fold h. rewrite !app_length. cbn [length]. rewrite <- !app_assoc. cbn [app].
-  unfold tinsert at 2. cbn [tmap tkeys map_find app].
-  unfold tinsert. cbn [tmap tkeys map_find keq].
+  unfold tinsert. cbn [tmap tkeys map_find app]. cbn [tmap tkeys map_find app keq].
   rewrite (@veq0_strings (h ++ [OTable (mkTable [] []); OStr str_key; OStr str_value])
              (N.of_nat (length h + 1)) (N.of_nat (length h + 1 + 1)) str_key str_value);
     [| rewrite (hget_app_at h _ 1); reflexivity
@@ -128,12 +130,12 @@ Proof.
   replace (0 <=? i)%Z with true by (symmetry; apply Z.leb_le; lia). cbn [andb].
   rewrite (tlen_spec W). destruct (i <? Z.of_nat (length (tabs t)))%Z eqn:E; [|reflexivity].
   apply Z.ltb_lt in E. assert (L : Z.to_nat i < length (tabs t)) by lia.
-  destruct (vm_row _ _ _ W L) as (R1 & R2). fold e in R1, R2. rewrite R1, R2. reflexivity.
+  destruct (vm_row F _ _ _ W L) as (R1 & R2). fold e in R1, R2. rewrite R1, R2. reflexivity.
 Qed.
 
 (* iteration as the natives and == see it *)
 Theorem titer_in_order : forall h t, twf (veq h) (dom h) t -> titer (veq h) t = Some (tabs t).
-Proof. exact vm_titer. Qed.
+Proof. exact (vm_titer F). Qed.
 
 (* ---- reference sharing ---- *)
 
@@ -162,22 +164,24 @@ Theorem vm_reference_sharing : forall ip0 s l a key v t s1,
   forall ip2 s2 l2, opcode_at P ip2 = 32%N -> stack_ok s2 -> st_heap s2 = st_heap s1 ->
     (* through the same address *)
     (stack_of s2 = l2 ++ [VObj a; key] ->
-     exists k, STEP ip2 s2 = SNext (ip2 + 1) (set_stack s2 k) /\ stack_is (cap s2) k (l2 ++ [v])) /    (* through another address *)
+     exists k, STEP ip2 s2 = SNext (ip2 + 1) (set_stack s2 k) /\ stack_is (cap s2) k (l2 ++ [v])) /\
+    (* through another address *)
     (forall b u key', b <> a -> hget (st_heap s) b = Some (OTable u) ->
        twf (veq (st_heap s)) (dom (st_heap s)) u -> dom (st_heap s) key' ->
        stack_of s2 = l2 ++ [VObj b; key'] ->
-       exists k, STEP ip2 s2 = SNext (ip2 + 1) (set_stack s2 k) /                 stack_is (cap s2) k
+       exists k, STEP ip2 s2 = SNext (ip2 + 1) (set_stack s2 k) /\
+                 stack_is (cap s2) k
                    (l2 ++ [match al_get (veq (st_heap s)) key' (tabs u) with Some x => x | None => VNil end])).
 Proof.
   intros ip0 s l a key v t s1 Hop Hok Hst Ha W Dk Hstep ip2 s2 l2 Hop2 Hok2 Hheap.
-  destruct (step_set_property _ _ _ _ _ _ _ Hop Hok Hst Ha W Dk) as (t' & k & E & K & W' & Habs).
+  destruct (step_set_property F bld P reenter _ _ _ _ _ _ _ Hop Hok Hst Ha W Dk) as (t' & k & E & K & W' & Habs).
   rewrite E in Hstep. inversion Hstep; subst s1. clear Hstep.
   assert (Hh : st_heap s2 = st_heap (set_table s a t')) by (rewrite Hheap; reflexivity).
   pose proof (hext_set_table _ _ _ t' Ha) as X. rewrite <- Hh in X.
   split.
   - intros Hst2.
     assert (Ha2 : hget (st_heap s2) a = Some (OTable t')) by (rewrite Hh; eapply hget_set_table_same; eauto).
-    destruct (step_get_property _ _ _ _ _ _ Hop2 Hok2 Hst2 Ha2 (twf_ext _ _ _ _ X W') (vkey_ext _ _ _ _ X Dk)) as (k2 & E2 & K2).
+    destruct (step_get_property F bld P reenter _ _ _ _ _ _ Hop2 Hok2 Hst2 Ha2 (twf_ext F _ _ _ X W') (vkey_ext F _ _ _ X Dk)) as (k2 & E2 & K2).
     exists k2. split; [exact E2|].
     rewrite al_get_ext with (h := st_heap s) in K2; auto.
     + rewrite Habs, al_get_set_same in K2; [exact K2 | apply veq0_refl, Dk].
@@ -185,7 +189,7 @@ Proof.
   - intros b u key' Hne Hb Wu Dk' Hst2.
     assert (Hb2 : hget (st_heap s2) b = Some (OTable u)).
     { rewrite Hh, hget_set_table_other by congruence. exact Hb. }
-    destruct (step_get_property _ _ _ _ _ _ Hop2 Hok2 Hst2 Hb2 (twf_ext _ _ _ _ X Wu) (vkey_ext _ _ _ _ X Dk')) as (k2 & E2 & K2).
+    destruct (step_get_property F bld P reenter _ _ _ _ _ _ Hop2 Hok2 Hst2 Hb2 (twf_ext F _ _ _ X Wu) (vkey_ext F _ _ _ X Dk')) as (k2 & E2 & K2).
     exists k2. split; [exact E2|].
     rewrite al_get_ext with (h := st_heap s) in K2; auto.
     destruct Wu as (A1 & A2 & _). unfold tabs. rewrite A1. exact A2.
@@ -220,7 +224,7 @@ Proof. unfold spop_w_offset. destruct (vs_step VNil (st_stack s) (VPopOff value 
 Lemma push_frame_heap s f s' : push_frame s f = Some s' -> st_heap s' = st_heap s.
 Proof. unfold push_frame. destruct (_ <=? _); intros H; inversion H; reflexivity. Qed.
 Lemma push_next_heap ip s v : st_heap (sres_state (push_next ip s v)) = st_heap s.
-Proof. unfold push_next. destruct (spush s v) eqn:E; cbn [sres_state]; [apply (spush_heap _ _ E) | reflexivity]. Qed.
+Proof. unfold push_next. destruct (spush s v) eqn:E; cbn [sres_state]; [apply (spush_heap _ _ _ E) | reflexivity]. Qed.
 
 Ltac hfact E :=
   match type of E with
@@ -264,36 +268,76 @@ Proof.
 Qed.
 
 (* the opcodes that leave the heap alone *)
-Lemma heap_same_simple : forall ip0 s,
-  In (opcode_at P ip0) [0; 1; 2; 3; 5; 6; 7; 9; 10; 12; 13; 14; 15; 16; 17; 18; 19; 20; 21; 23; 24; 25; 26; 27;
-                        28; 29; 30; 32; 34; 35; 36; 44]%N ->
-  st_heap (sres_state (STEP ip0 s)) = st_heap s.
+Notation SAME ip0 s := (st_heap (sres_state (STEP ip0 s)) = st_heap s).
+
+Lemma hs_binop ip0 s k : In k [0; 1; 2; 3; 12; 13; 14; 15; 24; 25; 26]%N -> opcode_at P ip0 = k -> SAME ip0 s.
 Proof.
-  intros ip0 s Hin. cbn [In] in Hin.
-  repeat (destruct Hin as [Hop|Hin]; [symmetry in Hop|]); try contradiction; step_opc Hop.
-  all: try apply binary_op_heap.
-  all: try apply push_next_heap.
-  all: try reflexivity.
-  - unfold i_5. repeat dm; hred; rewrite ?push_next_heap; reflexivity.
-  - unfold i_6. repeat dm; hred; rewrite ?push_next_heap; reflexivity.
-  - rewrite spop_shape. reflexivity.
-  - unfold i_17. rewrite spop_shape. cbv beta iota zeta. repeat dm; hred; reflexivity.
-  - unfold i_18. repeat dm; hred; rewrite ?push_next_heap; reflexivity.
-  - unfold i_19. repeat dm; hred; try reflexivity.
-    + rewrite E2. pose proof (spop_w_offset_heap s n0) as X. rewrite E1 in X. exact X.
-    + pose proof (spop_w_offset_heap s n0) as X. rewrite E1 in X. exact X.
-  - unfold i_20. repeat dm; hred; rewrite ?push_next_heap; reflexivity.
-  - unfold i_21. repeat dm; hred; try reflexivity. apply sclear_until_heap.
-  - unfold i_23. rewrite !spop_shape. cbv beta iota. repeat dm; hred; try reflexivity. congruence.
-  - unfold i_27. rewrite spop_shape. cbv beta iota. repeat dm; hred; rewrite ?push_next_heap; reflexivity.
-  - unfold i_28. repeat dm; hred; reflexivity.
-  - unfold i_29_30. rewrite spop_shape. cbv beta iota. repeat dm; hred; reflexivity.
-  - unfold i_29_30. rewrite spop_shape. cbv beta iota. repeat dm; hred; reflexivity.
-  - unfold i_32. rewrite !spop_shape. cbv beta iota. repeat dm; hred; rewrite ?push_next_heap; reflexivity.
-  - unfold i_34. rewrite spop_shape. cbv beta iota. repeat dm; hred; rewrite ?push_next_heap; reflexivity.
-  - unfold i_35. repeat dm; hred; try reflexivity; congruence.
-  - unfold i_36. repeat dm; hred; rewrite ?push_next_heap; try reflexivity; congruence.
-  - unfold i_43_44. change (44 =? 43)%N with false. cbv iota.
-    repeat dm; hred; rewrite ?push_next_heap; reflexivity.
+  intros Hin Hop. cbn [In] in Hin.
+  repeat (destruct Hin as [<-|Hin]; [step_opc Hop; apply binary_op_heap|]). contradiction.
 Qed.
+Lemma hs_5 ip0 s : opcode_at P ip0 = 5%N -> SAME ip0 s.
+Proof. intros Hop. step_opc Hop. unfold i_5. repeat dm; hred; rewrite ?push_next_heap; reflexivity. Qed.
+Lemma hs_6 ip0 s : opcode_at P ip0 = 6%N -> SAME ip0 s.
+Proof. intros Hop. step_opc Hop. unfold i_6. repeat dm; hred; rewrite ?push_next_heap; reflexivity. Qed.
+Lemma hs_7 ip0 s : opcode_at P ip0 = 7%N -> SAME ip0 s.
+Proof. intros Hop. step_opc Hop. apply push_next_heap. Qed.
+Lemma hs_9 ip0 s : opcode_at P ip0 = 9%N -> SAME ip0 s.
+Proof. intros Hop. step_opc Hop. apply push_next_heap. Qed.
+Lemma hs_10 ip0 s : opcode_at P ip0 = 10%N -> SAME ip0 s.
+Proof. intros Hop. step_opc Hop. reflexivity. Qed.
+Lemma hs_16 ip0 s : opcode_at P ip0 = 16%N -> SAME ip0 s.
+Proof. intros Hop. step_opc Hop. rewrite spop_shape. reflexivity. Qed.
+Lemma hs_17 ip0 s : opcode_at P ip0 = 17%N -> SAME ip0 s.
+Proof. intros Hop. step_opc Hop. unfold i_17. rewrite spop_shape. cbv beta iota zeta. repeat dm; hred; reflexivity. Qed.
+Lemma hs_18 ip0 s : opcode_at P ip0 = 18%N -> SAME ip0 s.
+Proof. intros Hop. step_opc Hop. unfold i_18. repeat dm; hred; rewrite ?push_next_heap; reflexivity. Qed.
+Lemma hs_19 ip0 s : opcode_at P ip0 = 19%N -> SAME ip0 s.
+Proof.
+  intros Hop. step_opc Hop. unfold i_19.
+  destruct (op_u32 P (ip0 + 1)); [|reflexivity]. destruct (top_offset s) as [off|]; [|reflexivity].
+  pose proof (spop_w_offset_heap s off) as X. destruct (spop_w_offset s off) as [s1 v]. cbn [fst] in X.
+  destruct (write_local s1 off n v) eqn:E; hred; [|exact X]. apply write_local_heap in E. congruence.
+Qed.
+Lemma hs_20 ip0 s : opcode_at P ip0 = 20%N -> SAME ip0 s.
+Proof. intros Hop. step_opc Hop. unfold i_20. repeat dm; hred; rewrite ?push_next_heap; reflexivity. Qed.
+Lemma hs_21 ip0 s : opcode_at P ip0 = 21%N -> SAME ip0 s.
+Proof. intros Hop. step_opc Hop. unfold i_21. destruct (top_offset s); hred; [apply sclear_until_heap | reflexivity]. Qed.
+Lemma hs_23 ip0 s : opcode_at P ip0 = 23%N -> SAME ip0 s.
+Proof.
+  intros Hop. step_opc Hop. unfold i_23. rewrite !spop_shape. cbv beta iota.
+  repeat dm; hred; try reflexivity; congruence.
+Qed.
+Lemma hs_27 ip0 s : opcode_at P ip0 = 27%N -> SAME ip0 s.
+Proof.
+  intros Hop. step_opc Hop. unfold i_27. rewrite spop_shape. cbv beta iota.
+  repeat dm; hred; rewrite ?push_next_heap; reflexivity.
+Qed.
+Lemma hs_28 ip0 s : opcode_at P ip0 = 28%N -> SAME ip0 s.
+Proof. intros Hop. step_opc Hop. unfold i_28. repeat dm; hred; reflexivity. Qed.
+Lemma hs_29 ip0 s : opcode_at P ip0 = 29%N -> SAME ip0 s.
+Proof. intros Hop. step_opc Hop. unfold i_29_30. rewrite spop_shape. cbv beta iota. repeat dm; hred; reflexivity. Qed.
+Lemma hs_30 ip0 s : opcode_at P ip0 = 30%N -> SAME ip0 s.
+Proof. intros Hop. step_opc Hop. unfold i_29_30. rewrite spop_shape. cbv beta iota. repeat dm; hred; reflexivity. Qed.
+Lemma hs_32 ip0 s : opcode_at P ip0 = 32%N -> SAME ip0 s.
+Proof.
+  intros Hop. step_opc Hop. unfold i_32. rewrite !spop_shape. cbv beta iota.
+  repeat dm; hred; rewrite ?push_next_heap; reflexivity.
+Qed.
+Lemma hs_34 ip0 s : opcode_at P ip0 = 34%N -> SAME ip0 s.
+Proof.
+  intros Hop. step_opc Hop. unfold i_34. rewrite spop_shape. cbv beta iota.
+  repeat dm; hred; rewrite ?push_next_heap; reflexivity.
+Qed.
+Lemma hs_35 ip0 s : opcode_at P ip0 = 35%N -> SAME ip0 s.
+Proof. intros Hop. step_opc Hop. unfold i_35. repeat dm; hred; try reflexivity; congruence. Qed.
+Lemma hs_36 ip0 s : opcode_at P ip0 = 36%N -> SAME ip0 s.
+Proof.
+  intros Hop. step_opc Hop. unfold i_36. repeat dm; hred; rewrite ?push_next_heap; try reflexivity; congruence.
+Qed.
+Lemma hs_44 ip0 s : opcode_at P ip0 = 44%N -> SAME ip0 s.
+Proof.
+  intros Hop. step_opc Hop. unfold i_43_44. change (44 =? 43)%N with false. cbv iota.
+  repeat dm; hred; rewrite ?push_next_heap; reflexivity.
+Qed.
+
 End Preserve.
